@@ -74,8 +74,11 @@ def run():
     if os.path.exists(RESULTS):
         res = {int(k): v for k, v in json.load(open(RESULTS)).items()}
     redo = arg('-redo', '')  # re-run the survivors whose function or file name contains this text
+    keep = {}
     if redo:
-        for k in [k for k, r in res.items() if r['status'] == 'survived' and (redo in r['func'] or redo in r['file'])]:
+        only_pass = '-suitepass' in sys.argv  # only survivors that also passed the SDK's suite
+        for k in [k for k, r in res.items() if r['status'] == 'survived' and (redo in r['func'] or redo in r['file']) and (not only_pass or r.get('suite') == 'pass')]:
+            keep[k] = {x: res[k][x] for x in ('suite', 'suite_fails') if x in res[k]}
             del res[k]
     q = queue.Queue()
     for s in sites:
@@ -112,6 +115,7 @@ def run():
                 else:
                     st = 'survived'
                 r = dict(s, status=st, reports=[x[:200] for x in reps[:6]], props=sorted({x.split()[0] for x in reps}))
+                r.update(keep.get(s['id'], {}))
                 with lock:
                     res[s['id']] = r
                     if len(res) % 50 == 0:
